@@ -89,8 +89,11 @@ class Interp:
         # paramclass shared by all generated external modules
         P = type("XP", (), {"a": h.Param(dtype=int, desc="a", default=0), "t": h.Param(dtype=str, desc="t", default="x")})
         self.XP = h.paramclass(P)
-        G = type("GP", (), {"k": h.Param(dtype=int, desc="k", default=0)})
+        G = type("GP", (), {"k": h.Param(dtype=int, desc="k", default=0), "s": h.Param(dtype=h.Scalar, desc="s", default=1 * h.prefix.m)})
         self.GP = h.paramclass(G)
+        # C12: unrelated earlier work that calls the same generator with an *equal* parameter value
+        # written with another prefix (1000 micro == 1 milli) before the real call
+        self.prior_equal = False
 
     # ------------------------------------------------------------------ design ops
     def run(self, op):
@@ -165,7 +168,9 @@ class Interp:
             body.__qualname__ = env.name
             body.__annotations__ = {"p": self.GP, "return": h.Module}
             env.gen = h.generator(body)
-            m = env.gen(k=mid)
+            if self.prior_equal:
+                env.gen(k=mid, s=h.Prefixed(number=1000, prefix=h.prefix.Prefix.MICRO))
+            m = env.gen(k=mid, s=1 * h.prefix.m)
             env.module = m
         env.ended = True
 
